@@ -160,6 +160,7 @@ func genHistory(t *rapid.T, maxLen int, garbageCtl bool) hCase {
 	// the delivery goroutine of a chunked transfer starts only when the
 	// command loop has to wait for it (late start, owned by the harness)
 	c.Script.GateStart = rapid.Bool().Draw(t, "gate_start")
+	c.Script.LogoutErr = rapid.IntRange(0, 3).Draw(t, "logout_err") == 0
 	for i := 0; i < 3; i++ {
 		c.Script.NewSession = append(c.Script.NewSession, genDecision(t, "d_newsession"))
 	}
